@@ -157,7 +157,9 @@ theorem hardened_path_from_public_refused (x : XKey) (p : List Nat) (hpub : x.is
   exact deriveFold'_public_hardened p x hpub hh
 
 /-- T4: `pub_key_derivation_tweaks` (the index-taking entry that does not go through `derive`) refuses a path
-    holding any index at or above 2^31 — 2^31 itself included — before walking a step. -/
+    holding any index at or above 2^31 — 2^31 itself included — before walking a step.  (This restates the three guards
+    of the model's `pubTweaks` in order — length, range, hardened; its content is that the hardened test is `≥ 2^31` and
+    precedes any walking; that the CODE has these guards is what the `bip32.tweaks` streams and the boundary oracle tie.) -/
 theorem tweaks_hardened_refused (key chain : Bytes) (idx : List Nat) (hk : key.length = 33) (hc : chain.length = 32)
     (hi : ∀ i ∈ idx, i ≤ Gen.Bip32.PATH_MAX_INDEX) (hh : ∃ i ∈ idx, i ≥ HARDENED) :
     pubTweaks E key chain idx = .error .hardenedPub := by
@@ -460,6 +462,129 @@ example : Bip85.hardenAll [83696968, 89101, 6, 10, 0] = .ok [2231180616, 2147572
 example : Bip85.hardenAll [83696968, 89101, 2 ^ 32 - 1, 10, 0] = .error (.bip32 .badField) := by decide
 example : Bip85.levelsOf "rolls_from_root_key" [("sides", 6), ("rolls", 10), ("index", 0)] false =
     some [83696968, 89101, 6, 10, 0] := by decide
+
+/-! ## T9 — field equations of the last step, index range, master key from seed -/
+
+/-- T9 (fields of the last step): the key derived along `p ++ [i]` is the single BIP step `i` of the key derived
+    along `p`: one level deeper, at index `i`, with the PARENT's fingerprint — the first four octets of HASH160 of the
+    parent's public key (computed from the scalar for a private parent) — and the parent's version. -/
+theorem deriveFold_last_step (x y : XKey) (p : List Nat) (i : Nat) (h : deriveFold E x (p ++ [i]) = .ok y) :
+    ∃ par, deriveFold E x p = .ok par ∧ ckd E par i = .ok y ∧ par.depth < MAX_DEPTH ∧
+      y.depth = par.depth + 1 ∧ y.index = i ∧ y.version = par.version ∧
+      y.parentFp = fpOf E (if par.isPrivate then pubOfPrv E par.prvInt else par.key) := by
+  rw [deriveFold_append] at h
+  cases hp : deriveFold E x p with
+  | error e => rw [hp] at h; cases h
+  | ok par =>
+    rw [hp] at h
+    have hc : ckd E par i = .ok y := by
+      simp only [Except.bind, deriveFold] at h
+      cases hck : ckd E par i with
+      | error e => rw [hck] at h; cases h
+      | ok z => rw [hck] at h; simpa using h
+    refine ⟨par, rfl, hc, ?_⟩
+    unfold ckd at hc
+    split at hc
+    · cases hc
+    · rename_i hd
+      have hf := ckd'_fields E hc
+      refine ⟨by omega, hf.1, hf.2.1, hf.2.2.1, ?_⟩
+      unfold ckd' at hc
+      split at hc
+      · rename_i hprv
+        simp only [hprv, if_true]
+        unfold ckdPriv ckdPrivWith at hc
+        by_cases h1 : ofBE (Btc.Bip32.split E par.chain ((if i ≥ HARDENED then par.key else pubOfPrv E par.prvInt) ++ beBytes 4 i)).1 ≥ nN E
+        · simp [h1] at hc
+        · by_cases h2 : (par.prvInt + ofBE (Btc.Bip32.split E par.chain ((if i ≥ HARDENED then par.key else pubOfPrv E par.prvInt) ++ beBytes 4 i)).1) % nN E = 0
+          · simp [h1, h2] at hc
+          · simp [h1, h2] at hc; rw [← hc]
+      · rename_i hprv
+        simp only [hprv]
+        unfold ckdPub at hc
+        split at hc
+        · cases hc
+        · split at hc
+          · cases hc
+          · rename_i P hP
+            unfold ckdPubWith at hc
+            by_cases h1 : ofBE (Btc.Bip32.split E par.chain (par.key ++ beBytes 4 i)).1 ≥ nN E
+            · simp [h1] at hc
+            · by_cases h2 : E.o.isZero (E.o.add P (E.o.mul ((ofBE (Btc.Bip32.split E par.chain (par.key ++ beBytes 4 i)).1 : Nat) : Int) E.o.gen)) = true
+              · simp [h1, h2] at hc
+              · simp [h1, h2] at hc; rw [← hc]; simp
+
+/-- T9 (index range): `derive_` refuses a path holding an index of 2^32 or more (it is no BIP32 index), whatever the
+    key — never reduced modulo 2^32. -/
+theorem derive_index_out_of_range_refused (x : XKey) (idx : List Nat) (f : Option Bytes)
+    (hv : assertValid E x = .ok ()) (hi : ∃ i ∈ idx, i ≥ 2 ^ 32) : derive E x idx f = .error .badField := by
+  unfold derive
+  have : idx.any (· > Gen.Bip32.PATH_MAX_INDEX) = true := by
+    obtain ⟨i, hi, hge⟩ := hi
+    exact List.any_eq_true.2 ⟨i, hi, by simp [Gen.Bip32.PATH_MAX_INDEX]; omega⟩
+  simp [hv, Except.bind, this]
+
+/-- T9 (master key): what `rootxprv_from_seed` answers for a seed is the BIP's master key — seed of 128..512 bits,
+    `I = HMAC-SHA512("Bitcoin seed", seed)`, key `00 ‖ I_L`, chain code `I_R`, depth 0, index 0, zero parent
+    fingerprint, the version asked — and it is valid (`0 < I_L < n`); a seed outside 128..512 bits is refused. -/
+theorem root_from_seed_spec (seed version : Bytes) :
+    (∀ x, rootFromSeed E seed version = .ok x →
+      128 ≤ seed.length * 8 ∧ seed.length * 8 ≤ 512 ∧
+      x.version = version ∧ x.depth = 0 ∧ x.index = 0 ∧ x.parentFp = [0, 0, 0, 0] ∧
+      x.key = 0 :: (E.mac Gen.Bip32.SEED_KEY seed).take 32 ∧ x.chain = (E.mac Gen.Bip32.SEED_KEY seed).drop 32 ∧
+      assertValid E x = .ok ()) ∧
+    (seed.length * 8 < 128 ∨ 512 < seed.length * 8 → rootFromSeed E seed version = .error .seedLen) ∧
+    -- "Bitcoin seed"
+    Gen.Bip32.SEED_KEY = [66, 105, 116, 99, 111, 105, 110, 32, 115, 101, 101, 100] := by
+  refine ⟨?_, ?_, by decide⟩
+  · intro x h
+    unfold rootFromSeed at h
+    simp only [Gen.Bip32.SEED_MIN_BITS, Gen.Bip32.SEED_MAX_BITS] at h
+    split at h
+    · cases h
+    · rename_i hb
+      split at h
+      · cases h
+      · simp only [Except.map] at h
+        split at h
+        · cases h
+        · rename_i u hv
+          cases h
+          exact ⟨by omega, by omega, rfl, rfl, rfl, rfl, rfl, rfl, hv⟩
+  · intro hb
+    unfold rootFromSeed
+    simp only [Gen.Bip32.SEED_MIN_BITS, Gen.Bip32.SEED_MAX_BITS]
+    rw [if_pos (by omega)]
+
+/-- T9 (master key, refusal): a left half that is zero or not below `n` gives NO master key (the seed is invalid; it is
+    never replaced by another key), whatever the right half. -/
+theorem root_from_seed_invalid_left_half_refused (seed version : Bytes) (x : XKey)
+    (hz : ofBE ((E.mac Gen.Bip32.SEED_KEY seed).take 32) = 0 ∨ nN E ≤ ofBE ((E.mac Gen.Bip32.SEED_KEY seed).take 32)) :
+    rootFromSeed E seed version ≠ .ok x := by
+  intro h
+  obtain ⟨_, _, _, _, _, _, hk, _, hv⟩ := (root_from_seed_spec (E := E) seed version).1 x h
+  unfold assertValid at hv
+  have hpi : x.prvInt = ofBE ((E.mac Gen.Bip32.SEED_KEY seed).take 32) := by simp [XKey.prvInt, hk]
+  have hh : x.key.head? = some 0 := by simp [hk]
+  have hnp : parsePoint E x.key = none := by
+    rw [hk]; unfold parsePoint; simp
+  split at hv
+  · cases hv
+  · split at hv
+    · cases hv
+    · split at hv
+      · cases hv
+      · split at hv
+        · cases hv
+        · split at hv
+          · split at hv
+            · cases hv
+            · split at hv
+              · rename_i hr; omega
+              · cases hv
+          · split at hv
+            · rw [hnp] at hv; simp at hv
+            · cases hv
 
 /-! ## non-vacuity -/
 
